@@ -339,3 +339,25 @@ func init() {
 		c.ok("dbg", "y", "", "")
 	})
 }
+
+func init() {
+	register("DNFRET", func(c *Ctx) {
+		parts := strings.Split(os.Getenv("DBG_FN"), ":")
+		for _, fn := range c.P.FuncsNamed(parts[0], parts[1], parts[2]) {
+			for _, ret := range returnsOf(fn) {
+				if len(ret.Results) == 1 && ret.Results[0].Type().String() == "bool" {
+					for _, want := range []bool{true, false} {
+						b := &bform{p: c.P, visited: map[ssa.Value]bool{}}
+						d := dnfAnd(b.pathCond(ret.Ret.Block(), nil, fn, 0), b.dnf(ret.Results[0], want, 0))
+						fmt.Println("RETURNS", want, "WHEN @", c.P.Pos(posOf(ret.Ret, fn)))
+						for _, cj := range simplifyDNF(d) {
+							fmt.Println("     ∨", strings.Join(cj.list(), "  ∧  "))
+						}
+					}
+				}
+			}
+		}
+		c.ok("dbg", "x", "", "")
+		c.ok("dbg", "y", "", "")
+	})
+}
